@@ -73,7 +73,7 @@ def run(tier, seed, t0):
     shards = [("P",) + s for s in spaces.word_shards(R.SYM, 1, L, 4)]
     shards += [("S",) + s for s in spaces.word_shards(R.SYM, 1, L2, 3)]
     shards += [("R", N, 3) for N in range(RN, 1, -1)]
-    LN = (64, 127, 128, 129, 200, 256) if tier == "quick" else (64, 127, 128, 129, 200, 255, 256, 257, 300, 400, 512, 700, 1000)
+    LN = (64, 127, 128, 129, 200, 256, 257, 513) if tier == "quick" else (64, 127, 128, 129, 200, 255, 256, 257, 300, 400, 512, 700, 1000)
     shards += [("LONG", N) for N in LN]
     SC = 200 if tier == "quick" else 520
     shards = [("SCAN", SC, "up"), ("SCAN", SC, "down")] + shards
